@@ -14,6 +14,10 @@
         marshal_nbt_is_skel     Message.MarshalNBT (normalise, choose the struct, encode its ROWS) = fields_of
         marshal_json_is_skel    Message.MarshalJSON                          = to_json
         clear_string_is_skel    Message.ClearString: text, translate with arguments, extra = clear_string
+        ansi_string_is_skel     Message.String: the format builder (four flag tests, colour from the translated
+                                colors table), the guarded [:Len()-1] slice, text, translate, extra, the reset = ansi_string
+        string_slice_guarded    the slice's bounds guard (from the translated site table) implies its bounds
+        render_total_translated the interpretation of the translated String / ClearString bodies is never a panic
         trans_ctrl_is_skel      TransCtrlSeq's callback                      = one step of trans_ctrl
         type_write_is_skel / type_read_is_skel   Type.WriteTo / ReadFrom     = type_write / type_read
         wire_is_skel            Message.WriteTo / ReadFrom / TagType         = pk.NBT of the component
@@ -21,7 +25,7 @@
    the semantics of the library calls behind the leaves (package nbt, encoding/json, fmt, regexp, pk.NBT). *)
 From Coq Require Import List String Ascii NArith ZArith Bool Lia.
 From GoMC Require Import Base.Bytes Base.Dec Gen.Consts Gen.C17gen Model.C05 Model.C17_syntax Model.C17
-  Proofs.C17_expected Proofs.C17_tie.
+  Proofs.C17 Proofs.C17_expected Proofs.C17_tie.
 Import ListNotations.
 Local Open Scope string_scope.
 Local Open Scope list_scope.
@@ -738,6 +742,250 @@ Proof.
     cbn [rconcat]. 
     set (TR := match rall _ with LOk l => _ | LCrash => RCrash | LUnsup => RUnsup end).
     destruct TR; [destruct (rconcat (map (clear_string tbl) e)); reflexivity | reflexivity | reflexivity].
+Qed.
+
+(* ------------------------------------------------------------------ Message.String *)
+Section AnsiInterp.
+  Variable tbl : list (str * str).
+  Variable rec : msg -> rres.                     (* String of a nested component *)
+  (* format: the SGR parameter builder; text/ok: the results of TransCtrlSeq; the writes to msg, in order *)
+  Record ast := { a_fmt : str; a_text : option (str * bool); a_pieces : list rres }.
+  Definition as_cond (c : string) (m : msg) : option bool :=
+    if c == "m.Bold" then Some (s_bold (m_style m))
+    else if c == "m.Italic" then Some (s_italic (m_style m))
+    else if c == "m.UnderLined" then Some (s_underlined (m_style m))
+    else if c == "m.StrikeThrough" then Some (s_strike (m_style m))
+    else if c == "m.Color != """"" then Some (negb (is_nil (s_color (m_style m))))
+    else None.
+  (* the colour parameter is looked up in the TRANSLATED colors table *)
+  Definition as_fmt_write (t : string) (m : msg) : option str :=
+    if t == "format.WriteString(""1;"")" then Some [49; 59]
+    else if t == "format.WriteString(""3;"")" then Some [51; 59]
+    else if t == "format.WriteString(""4;"")" then Some [52; 59]
+    else if t == "format.WriteString(""9;"")" then Some [57; 59]
+    else if t == "format.WriteString(colors[m.Color] + "";"")" then Some (assoc (s_color (m_style m)) chat_colors ++ [59])
+    else None.
+  (* format.String()[:format.Len()-1]: Go panics (slice bounds out of range [:-1]) when the builder is empty *)
+  Definition slice_prefix (f : str) : rres :=
+    if (List.length f <? 1)%nat then RCrash else ROk (removelast f).
+  (* fmt.Fprintf(&msg, translateMap[m.Translate], m.With...): %s prints a component through its String method *)
+  Definition as_fprintf (m : msg) : rres :=
+    match rall (map (fun x => match x with AM m' => rec m' | AS z => ROk z end) (m_with m)) with
+    | LOk l => sprintf (assoc (m_translate m) tbl) (combine (map is_AM (m_with m)) l)
+    | LCrash => RCrash
+    | LUnsup => RUnsup
+    end.
+  Definition a_push (x : list rres) (st : ast) : ast :=
+    {| a_fmt := a_fmt st; a_text := a_text st; a_pieces := a_pieces st ++ x |}.
+  Definition as_step (s : cstmt17) (m : msg) (st : ast) : option ast :=
+    match s with
+    | CText t =>
+        if t == "var msg, format strings.Builder" then Some st
+        else if t == "text, ok := TransCtrlSeq(m.Text, true)" then
+          Some {| a_fmt := a_fmt st; a_text := Some (trans_ctrl true (m_text m)); a_pieces := a_pieces st |}
+        else if t == "msg.WriteString(text)" then
+          match a_text st with Some tc => Some (a_push [ROk (fst tc)] st) | None => None end
+        else None
+    | CIf i c [CText w] [] =>
+        if i == "" then
+          match as_cond c m with
+          | Some b =>
+              match as_fmt_write w m with
+              | Some x => Some {| a_fmt := a_fmt st ++ (if b then x else []); a_text := a_text st; a_pieces := a_pieces st |}
+              | None => None
+              end
+          | None =>
+              if c == "format.Len() > 0" then
+                if w == "msg.WriteString(""\033["" + format.String()[:format.Len()-1] + ""m"")" then
+                  Some (a_push (if (0 <? List.length (a_fmt st))%nat
+                                then [rbind (slice_prefix (a_fmt st)) (fun p => ROk (esc :: 91 :: p ++ [109]))]
+                                else []) st)
+                else None
+              else if c == "m.Translate != """"" then
+                if w == "_, _ = fmt.Fprintf(&msg, translateMap[m.Translate], m.With...)" then
+                  Some (a_push (if is_nil (m_translate m) then [] else [as_fprintf m]) st)
+                else None
+              else if c == "format.Len() > 0 || ok" then
+                if w == "msg.WriteString(""\033[0m"")" then
+                  match a_text st with
+                  | Some tc => Some (a_push (if (0 <? List.length (a_fmt st))%nat || snd tc
+                                             then [ROk [esc; 91; 48; 109]] else []) st)
+                  | None => None
+                  end
+                else None
+              else None
+          end
+        else None
+    | CIf i c [CRange h [CText wr]] [] =>
+        if (i == "") && (c == "m.Extra != nil") && (h == "i := range m.Extra")
+           && (wr == "msg.WriteString(m.Extra[i].String())") then
+          Some (a_push (map rec (m_extra m)) st)
+        else None
+    | _ => None
+    end.
+  Fixpoint as_run (ss : list cstmt17) (m : msg) (st : ast) : option (list rres) :=
+    match ss with
+    | [] => None
+    | CReturn [r] :: _ => if r == "msg.String()" then Some (a_pieces st) else None
+    | s :: rest => match as_step s m st with Some st' => as_run rest m st' | None => None end
+    end.
+End AnsiInterp.
+
+(* the format builder after the five tests *)
+Definition fmt_built (b1 b2 b3 b4 : bool) (co : str) : str :=
+  (((([] ++ (if b1 then [49; 59] else [])) ++ (if b2 then [51; 59] else [])) ++ (if b3 then [52; 59] else []))
+     ++ (if b4 then [57; 59] else [])) ++ (if negb (is_nil co) then assoc co chat_colors ++ [59] else []).
+Lemma fmt_built_is_sgr b1 b2 b3 b4 b5 fo co ins cl :
+  fmt_built b1 b2 b3 b4 co = sgr (mkStyle b1 b2 b3 b4 b5 fo co ins cl).
+Proof.
+  unfold fmt_built, sgr. rewrite <- colors_translated.
+  cbn [s_bold s_italic s_underlined s_strike s_color app].
+  rewrite <- !app_assoc. destruct co; reflexivity.
+Qed.
+
+(* symbolic execution of the recorded body: the writes to msg *)
+Definition ansi_pieces (tbl : list (str * str)) (rec : msg -> rres) (m : msg) (F : str) (tc : str * bool) : list rres :=
+  (((([] ++ (if (0 <? List.length F)%nat
+             then [rbind (slice_prefix F) (fun p => ROk (esc :: 91 :: p ++ [109]))] else []))
+       ++ [ROk (fst tc)])
+      ++ (if is_nil (m_translate m) then [] else [as_fprintf tbl rec m]))
+     ++ map rec (m_extra m))
+    ++ (if (0 <? List.length F)%nat || snd tc then [ROk [esc; 91; 48; 109]] else []).
+Lemma as_run_expected tbl rec t b1 b2 b3 b4 b5 fo co ins cl h tr w e :
+  let m := Msg t (mkStyle b1 b2 b3 b4 b5 fo co ins cl) h tr w e in
+  as_run tbl rec (snd expected_Message_String) m {| a_fmt := []; a_text := None; a_pieces := [] |}
+  = Some (ansi_pieces tbl rec m (fmt_built b1 b2 b3 b4 co) (trans_ctrl true t)).
+Proof. reflexivity. Qed.
+
+Lemma rbind_ret r : rbind r (fun y => ROk y) = r.
+Proof. destruct r; reflexivity. Qed.
+Lemma rconcat_app a : forall b,
+  rconcat (a ++ b) = rbind (rconcat a) (fun x => rbind (rconcat b) (fun y => ROk (x ++ y))).
+Proof.
+  induction a as [|r a IH]; intros b.
+  - cbn. rewrite rbind_ret. reflexivity.
+  - cbn [app rconcat]. rewrite IH. destruct r as [s| |]; try reflexivity. cbn [rbind].
+    destruct (rconcat a) as [x| |]; try reflexivity. cbn [rbind].
+    destruct (rconcat b) as [y| |]; try reflexivity. cbn [rbind]. rewrite app_assoc. reflexivity.
+Qed.
+(* the writes, concatenated, are the model's renderer: one lemma per shape of the builder *)
+Lemma ansi_pieces_empty tbl rec m tx ch :
+  rconcat (ansi_pieces tbl rec m [] (tx, ch))
+  = rbind (if is_nil (m_translate m) then ROk [] else as_fprintf tbl rec m) (fun tro =>
+    rbind (rconcat (map rec (m_extra m))) (fun eo =>
+      ROk ([] ++ tx ++ tro ++ eo ++ (if negb (is_nil (@nil N)) || ch then esc :: [91;48;109] else [])))).
+Proof.
+  unfold ansi_pieces. cbn [List.length Nat.ltb Nat.leb fst snd app orb is_nil negb].
+  rewrite rconcat_ok_cons, !rconcat_app. cbn [rconcat rbind app].
+  destruct (is_nil (m_translate m)); [|destruct (as_fprintf tbl rec m) as [tro| |]]; cbn [rconcat rbind app];
+    try reflexivity;
+    (destruct (rconcat (map rec (m_extra m))) as [eo| |]; cbn [rbind app]; try reflexivity;
+     destruct ch; cbn [rconcat rbind app]; rewrite ?app_nil_r, <- ?app_assoc; reflexivity).
+Qed.
+Lemma ansi_pieces_cons tbl rec m x F tx ch :
+  rconcat (ansi_pieces tbl rec m (x :: F) (tx, ch))
+  = rbind (if is_nil (m_translate m) then ROk [] else as_fprintf tbl rec m) (fun tro =>
+    rbind (rconcat (map rec (m_extra m))) (fun eo =>
+      ROk ((esc :: 91 :: removelast (x :: F) ++ [109]) ++ tx ++ tro ++ eo ++ esc :: [91;48;109]))).
+Proof.
+  unfold ansi_pieces, slice_prefix. cbn [List.length Nat.ltb Nat.leb fst snd orb rbind app].
+  rewrite !rconcat_ok_cons, !rconcat_app. cbn [rconcat rbind].
+  destruct (is_nil (m_translate m)); [|destruct (as_fprintf tbl rec m) as [tro| |]]; cbn [rconcat rbind];
+    try reflexivity;
+    (destruct (rconcat (map rec (m_extra m))) as [eo| |]; cbn [rbind]; try reflexivity;
+     rewrite ?app_nil_r, <- ?app_assoc; cbn [app]; rewrite ?app_nil_r, <- ?app_assoc; reflexivity).
+Qed.
+(* the bounds guard of the slice: format.Len() > 0 implies 0 <= format.Len()-1 <= format.Len(); the slice is
+   never reached with an empty builder, so the interpretation never yields a panic from it *)
+Lemma slice_guarded F : (0 <? List.length F)%nat = true -> slice_prefix F = ROk (removelast F).
+Proof. intros H. destruct F; [discriminate | reflexivity]. Qed.
+
+Theorem ansi_string_is_skel tbl m :
+  option_map rconcat
+    (as_run tbl (ansi_string tbl) (snd expected_Message_String) m {| a_fmt := []; a_text := None; a_pieces := [] |})
+  = Some (ansi_string tbl m).
+Proof.
+  destruct m as [t s h tr w e]. destruct s as [b1 b2 b3 b4 b5 fo co ins cl].
+  pose proof (as_run_expected tbl (ansi_string tbl) t b1 b2 b3 b4 b5 fo co ins cl h tr w e) as R.
+  cbv zeta in R. rewrite R. clear R. cbn [option_map]. f_equal.
+  rewrite (fmt_built_is_sgr b1 b2 b3 b4 b5 fo co ins cl).
+  cbn [ansi_string]. set (F := sgr _). destruct (trans_ctrl true t) as [tx ch].
+  destruct F as [|x F'].
+  - rewrite ansi_pieces_empty. cbn [is_nil m_translate m_extra rbind].
+    unfold as_fprintf. cbn [m_with m_translate]. destruct (is_nil tr); reflexivity.
+  - rewrite ansi_pieces_cons. cbn [is_nil m_translate m_extra rbind List.length Nat.ltb Nat.leb negb orb].
+    unfold as_fprintf. cbn [m_with m_translate]. destruct (is_nil tr); reflexivity.
+Qed.
+
+(* ------------------------------------------------------------------ index / slice sites of the renderers *)
+Lemma render_sites_skel_ok : chat_render_sites = expected_render_sites. Proof. reflexivity. Qed.
+
+(* the one slice of Message.String, its bounds as integers: len = format.Len() *)
+Definition guard_len (t : string) (len : Z) : option bool :=
+  if t == "format.Len() > 0" then Some (0 <? len)%Z else None.
+Definition hi_len (t : string) (len : Z) : option Z :=
+  if t == "format.Len() - 1" then Some (len - 1)%Z else None.
+Definition string_slices : list site17 :=
+  filter (fun s => (st_fun s == "String") && (st_kind s == "slice")) chat_render_sites.
+(* exactly one slice, of the whole builder from 0, enclosed in a guard under which its high bound lies within
+   0 .. len: the slice expression cannot panic *)
+Theorem string_slice_guarded :
+  exists st, string_slices = [st] /\ st_x st = "format.String()" /\ st_lo st = "" /\ st_guards st <> []
+    /\ forall len, (0 <= len)%Z ->
+         forallb (fun g => match guard_len g len with Some b => b | None => false end) (st_guards st) = true ->
+         exists hi, hi_len (st_hi st) len = Some hi /\ (0 <= hi <= len)%Z.
+Proof.
+  eexists. split; [reflexivity|]. cbn [st_x st_lo st_guards st_hi]. repeat split; try discriminate.
+  intros len Hl H. cbn in H. rewrite andb_true_r in H. apply Z.ltb_lt in H.
+  exists (len - 1)%Z. split; [reflexivity | lia].
+Qed.
+(* every other site is a map lookup (never panics), an index i inside `range` over the indexed operand (or over
+   m.With for args, made with len(m.With)), or str[2] inside the callback (a match of fmtPat: the section sign
+   and one more byte, fmt_pat_head) *)
+Definition site_class (s : site17) : option N :=
+  if st_kind s == "slice" then
+    if (st_fun s == "String") && (st_x s == "format.String()") then Some 0 else None
+  else if (st_x s == "colors") || (st_x s == "translateMap") || (st_x s == "fmtCode") then Some 1
+  else if (st_lo s == "i")
+          && existsb (fun g => (g == ("i := range " ++ st_x s)%string)
+                               || ((st_x s == "args") && (g == "i, v := range m.With"))) (st_guards s) then Some 2
+  else if (st_fun s == "TransCtrlSeq") && (st_x s == "str") && (st_lo s == "2")
+          && existsb (String.eqb "func") (st_guards s) then Some 3
+  else None.
+Lemma render_sites_classified :
+  forallb (fun s => match site_class s with Some _ => true | None => false end) chat_render_sites = true.
+Proof. reflexivity. Qed.
+(* args is made with the length of the ranged slice *)
+Lemma clear_args_made :
+  match snd expected_Message_ClearString with
+  | [_; _; _; CIf _ _ (CText mk :: CRange h _ :: _) _; _; _] =>
+      mk = "args := make([]any, len(m.With))" /\ h = "i, v := range m.With"
+  | _ => False
+  end.
+Proof. split; reflexivity. Qed.
+
+(* ------------------------------------------------------------------ rendering never panics, translated *)
+(* the interpretation of the translated bodies (nested components rendered by the model's renderers, which are
+   themselves this interpretation: clear_string_is_skel, ansi_string_is_skel) is never a panic *)
+Theorem render_total_translated tbl m :
+  option_map rconcat
+    (as_run tbl (ansi_string tbl) (snd chat_Message_String) m {| a_fmt := []; a_text := None; a_pieces := [] |})
+  <> Some RCrash
+  /\ option_map rconcat
+       (cs_run tbl (clear_string tbl) (snd chat_Message_ClearString) m {| c_text := None; c_pieces := [] |})
+     <> Some RCrash
+  /\ option_map rconcat
+       (as_run tbl (ansi_string tbl) (snd chat_Message_String) m {| a_fmt := []; a_text := None; a_pieces := [] |})
+     <> None
+  /\ option_map rconcat
+       (cs_run tbl (clear_string tbl) (snd chat_Message_ClearString) m {| c_text := None; c_pieces := [] |})
+     <> None.
+Proof.
+  change chat_Message_String with expected_Message_String.
+  change chat_Message_ClearString with expected_Message_ClearString.
+  rewrite ansi_string_is_skel, clear_string_is_skel. repeat split; try discriminate.
+  - intros H. injection H as H. exact (ansi_string_nc tbl m H).
+  - intros H. injection H as H. exact (clear_string_nc tbl m H).
 Qed.
 
 (* ------------------------------------------------------------------ summary obligations *)
